@@ -21,7 +21,7 @@ RULE = ('histories put x; (other puts / restores / purges of other entries / rem
         'was removed; distinct = (entry kind, trash-dir kind, sort, scope kind, parent removed)')
 ASSUMPTIONS = ['the premise is a successful trash-put: names that trash-put cannot trash (not valid UTF-8) are judged by C16',
                'listing lines are attributed to entries by (date, path); identical lines are interchangeable']
-PROBES = ['roundtrip-ok', 'parent-recreated', 'volume-trash', 'top-trash', 'custom-trash-dir', 'sort-none', 'sort-path', 'sort-date',
+PROBES = ['failed-attempt-then-retry', 'roundtrip-ok', 'parent-recreated', 'volume-trash', 'top-trash', 'custom-trash-dir', 'sort-none', 'sort-path', 'sort-date',
           'name-with-newline', 'from-ancestor', 'from-root', 'by-path-argument', 'collision-suffix']
 TECHNIQUE = 'deterministic simulation of put/.../restore histories; snapshot equality of the original subtree and frame diff of the restore step'
 LEVEL_TEXT = 'seeded round-trip law over names x kinds x layouts x sort modes x intervening histories, on the real commands end to end'
@@ -91,11 +91,13 @@ def gen(rng):
     elif scope == 'arg_entry':
         argv.append(x)
     procs.append({'argv': argv, 'env': env, 'cwd': cwd, 'uid': uid, 'stdin': '?', 'advance': rng.choice([0, 5, 86400])})
+    failed_first = rng.random() < 0.2
     return {
         'world': {'mounts': L['mounts'], 'steps': steps},
         'procs': procs,
         'dirsalt': rng.randrange(1 << 30),
         'note': {'scope': scope, 'kind': kind},
+        'failed_first_attempt': failed_first,
     }
 
 
@@ -172,6 +174,26 @@ def check(sim, case, st):
         # the listing is unambiguous
         return '%d\n' % cand[-1 if seen.get('second') else 0]
 
+    if case.get('failed_first_attempt'):
+        # the destination directory is not writable for the first attempt (EACCES at the move):
+        # the attempt must fail and leave the entry restorable
+        from sim.vkernel import K
+        sb = sim.snap()
+        par = posixpath.dirname(loc)
+        sim.set_faults([{'kind': 'cond', 'what': 'dir_not_writable', 'dir': par}])
+        r1 = sim.run(rs, stdin_fn=user)
+        sim.set_faults([])
+        st.sims += 1
+        sa = sim.snap()
+        st.probes['failed-attempt-then-retry'] += 1
+        if loc in sa:
+            bad('restored-despite-unwritable-directory', 'the destination directory was not writable but %r appeared' % loc)
+            return res
+        if (T + '/files/' + N) not in sa or (T + '/info/' + N + '.trashinfo') not in sa:
+            bad('failed-restore-damaged-entry', 'a restore that failed at the move (EACCES, exit %s) left the trash without %s of the entry: stderr %s'
+                % (r1.exit, 'the payload' if (T + '/files/' + N) not in sa else 'the .trashinfo', r1.errs[-300:]))
+            return res
+        seen.clear()
     snap_before = sim.snap()
     rr = sim.run(rs, stdin_fn=user)
     st.sims += 1
